@@ -132,6 +132,7 @@ func cmdCheck(args []string) int {
 		cpk = append(cpk, pp)
 	}
 	for _, c := range cfg.ContractPkgs {
+		c = strings.TrimSuffix(strings.TrimPrefix(c, "./"), "/")
 		cpk = append(cpk, modulePath+"/"+c)
 	}
 	sort.Strings(cpk)
